@@ -1014,7 +1014,9 @@ class _CxIfPathSegmentLiteral(_CxParent):
         self._literal = literal
 
     def src(self, indentation: int) -> str:
-        template = "{0}if path[{1}] == '{2}':\n{3}"
+        # NOTE: The literal is emitted with repr() so that quotes, backslashes
+        #   and any other special characters cannot break the generated source.
+        template = '{0}if path[{1}] == {2!r}:\n{3}'
         return template.format(
             _TAB_STR * indentation,
             self._segment_idx,
